@@ -442,7 +442,7 @@ def run_all(vlib, exe, lines, timeout=900, max_deaths=12):
 
 def coqchk(vlib, rep, pid):
     """thorough tier: independent re-check of the compiled cone by coqchk (also reports axioms)"""
-    if rep.proof_error:
+    if rep.proof_error or "coqchk" in rep.cov:      # vlib.prelude already ran it in the thorough tier
         return
     p = vlib.sh(["timeout", "2400", "coqchk", "-silent", "-o", "-Q", "theories", "Carquet",
                  f"Carquet.Props.Properties_{pid}"], cwd=vlib.COQ)
